@@ -16,6 +16,87 @@
    Definitions only; proofs in Store/StoresProofs.v. *)
 From OFGA Require Import Base.Bytes Store.Assertions Store.Models.
 
+(* ------------------------------------------------------------------------------------------ *)
+(* The store table and ListStores with its filters (storage.ListStoresOptions{IDs, Name}), as   *)
+(* coded in both backends.  Pagination only cuts the result into pages (C14); the result here   *)
+(* is the whole filtered list, unsorted (both backends sort it by id afterwards).               *)
+
+Fixpoint tremove {T : Type} (k : bytes) (m : list (bytes * T)) : list (bytes * T) :=
+  match m with
+  | [] => []
+  | (k', v) :: r => if beqb k' k then tremove k r else (k', v) :: tremove k r
+  end.
+
+(* memory.go ListStores: all stores; if len(IDs) > 0, for each requested id (in request order)
+   the stores with that id; if Name != "", only those with that name *)
+Definition mem_list_stores (tbl : list (bytes * bytes)) (ids : list bytes) (name : bytes) : list (bytes * bytes) :=
+  let by_id := match ids with
+               | [] => tbl
+               | _ => flat_map (fun id => filter (fun p => beqb (fst p) id) tbl) ids
+               end in
+  match name with
+  | [] => by_id
+  | _ => filter (fun p => beqb (snd p) name) by_id
+  end.
+
+(* sqlite.go: table store(id PRIMARY KEY, name, deleted_at) *)
+Definition sql_store_tbl := list (bytes * bytes * bool).      (* id, name, deleted *)
+
+Definition sql_create_store (t : sql_store_tbl) (id name : bytes) : option sql_store_tbl :=
+  if existsb (fun r => beqb (fst (fst r)) id) t then None          (* primary key: ErrCollision *)
+  else Some (t ++ [(id, name, false)]).
+
+(* UPDATE store SET deleted_at = now WHERE id = ? *)
+Definition sql_delete_store (t : sql_store_tbl) (id : bytes) : sql_store_tbl :=
+  map (fun r => if beqb (fst (fst r)) id then (fst r, true) else r) t.
+
+(* SELECT .. WHERE id = ? AND deleted_at IS NULL *)
+Definition sql_get_store (t : sql_store_tbl) (id : bytes) : option bytes :=
+  match filter (fun r => beqb (fst (fst r)) id && negb (snd r)) t with
+  | r :: _ => Some (snd (fst r))
+  | [] => None
+  end.
+
+(* WHERE deleted_at IS NULL [AND id IN (ids)] [AND name = ?] *)
+Definition sql_list_stores (t : sql_store_tbl) (ids : list bytes) (name : bytes) : list (bytes * bytes) :=
+  map fst
+    (filter (fun r => negb (snd r)
+                      && match ids with [] => true | _ => existsb (beqb (fst (fst r))) ids end
+                      && match name with [] => true | _ => beqb (snd (fst r)) name end) t).
+
+Inductive top :=
+| TCreate (id name : bytes)
+| TDelete (id : bytes)
+| TGet (id : bytes)
+| TList (ids : list bytes) (name : bytes).
+
+Inductive tout :=
+| TOk
+| TCollision
+| TNotFound
+| TStore (id name : bytes)
+| TStores (l : list (bytes * bytes)).
+
+Definition sql_tstep (t : sql_store_tbl) (o : top) : sql_store_tbl * tout :=
+  match o with
+  | TCreate id name => match sql_create_store t id name with Some t' => (t', TStore id name) | None => (t, TCollision) end
+  | TDelete id => (sql_delete_store t id, TOk)
+  | TGet id => (t, match sql_get_store t id with Some n => TStore id n | None => TNotFound end)
+  | TList ids name => (t, TStores (sql_list_stores t ids name))
+  end.
+
+Fixpoint sql_trun (t : sql_store_tbl) (h : list top) : sql_store_tbl :=
+  match h with [] => t | o :: r => sql_trun (fst (sql_tstep t o)) r end.
+
+Fixpoint sql_ttrace (t : sql_store_tbl) (h : list top) : list (top * tout) :=
+  match h with
+  | [] => []
+  | o :: r => let (t', out) := sql_tstep t o in (o, out) :: sql_ttrace t' r
+  end.
+
+Definition tcreates (id : bytes) (o : top) : bool :=
+  match o with TCreate id' _ => beqb id' id | _ => false end.
+
 Section Stores.
   Variable body : Type.              (* content of an authorization model *)
   Variable ntypes : body -> N.
@@ -55,6 +136,7 @@ Section Stores.
   | PDelete (id : bytes)
   | PGet (id : bytes)
   | PList
+  | PListF (ids : list bytes) (name : bytes)       (* ListStores with the IDs / name filters *)
   | PWrite (s : bytes) (w : wreq)
   | PQuery (s : bytes) (q : qreq)
   | PWriteModel (s id : bytes) (b : body)
@@ -92,6 +174,7 @@ Section Stores.
     | PGet id =>
       (st, match alookup beqb id (s_stores st) with Some name => QStore id name | None => QNotFound end)
     | PList => (st, QStores (s_stores st))
+    | PListF ids name => (st, QStores (mem_list_stores (s_stores st) ids name))
     | PWrite s w =>
       match apply_write (view_of st s) w with
       | (r, Some (t', c')) =>
@@ -135,6 +218,7 @@ Section Stores.
     | PDelete id => Some id
     | PGet id => Some id
     | PList => None
+    | PListF _ _ => None
     | PWrite s _ => Some s
     | PQuery s _ => Some s
     | PWriteModel s _ _ => Some s
